@@ -288,8 +288,15 @@ func (c *channelInstance) verifyAndDecrypt(m *MessageChunk, r []byte) ([]byte, e
 		b = append(b[:headerLength], p...)
 	}
 
-	signature := b[len(b)-c.algo.RemoteSignatureLength():]
-	messageToVerify := b[:len(b)-c.algo.RemoteSignatureLength()]
+	// A chunk that is too short to hold a signature behind its headers cannot
+	// be valid. Reject it before slicing: the length is controlled by the peer.
+	signatureLength := c.algo.RemoteSignatureLength()
+	if len(b)-signatureLength < headerLength {
+		return nil, ua.StatusBadSecurityChecksFailed
+	}
+
+	signature := b[len(b)-signatureLength:]
+	messageToVerify := b[:len(b)-signatureLength]
 
 	if err := c.algo.VerifySignature(messageToVerify, signature); err != nil {
 		return nil, ua.StatusBadSecurityChecksFailed
